@@ -444,7 +444,7 @@ theorem runFrom_ifElse (ctx : Consensus.Ctx) {a' b : List Cmd} (ha : Bal a') (hb
     simp only [Bool.false_eq_true, if_false, runFrom_append, runSeg_skip ctx ha s' a [false] rfl,
       runFrom_cons, step_else, Bool.not_false, hr [true] rfl, hr [] rfl]
     cases r with
-    | ok p1 => simp only [Consensus.Res.map, mkSt, runFrom_cons, step_endif]
+    | ok p1 => simp only [Consensus.Res.map, mkSt, step_endif]
     | fail => rfl
     | oversize => rfl
     | unsupported => rfl
@@ -539,7 +539,7 @@ theorem step_model_base (env : Env) (hlt : env.locktime ≤ 4294967295) (c : Cmd
         = .ok ⟨rest, b :: s, a, none, false⟩ := by
       simp only [step]
       rw [p2shRule_plain' env _ b hrest]
-      exact witnessRules_plain env _ b s rfl hp
+      exact afterPush_plain _ env _ b s rfl hp
     rw [h1]
     exact ⟨b :: s, a, rfl, rfl⟩
   | op k =>
